@@ -10,9 +10,9 @@ enum { F_CEIL, F_FLOOR, F_TRUNC, F_ROUND, F_NEARBYINT, F_RINT, F_COUNT };
 enum { OP_SC0 = F_COUNT, OP_ENV = 2 * F_COUNT, OP_COUNT };
 enum { ENV_OPS = 68 };   // operations sampled for the environment invariant (every function and operator the float vectors offer)
 static const VpOp OPS[] = {
-    {"ceil", {VK_FLT}, {SK_SMALL}, 2}, {"floor", {VK_FLT}, {SK_SMALL}, 2}, {"trunc", {VK_FLT}, {SK_SMALL}, 2}, {"round", {VK_FLT}, {SK_SMALL}, 2}, {"nearbyint", {VK_FLT}, {SK_SMALL}, 3}, {"rint", {VK_FLT}, {SK_SMALL}, 3},
-    {"scalar_ceil", {VK_FLT}, {SK_SMALL}, 1}, {"scalar_floor", {VK_FLT}, {SK_SMALL}, 1}, {"scalar_trunc", {VK_FLT}, {SK_SMALL}, 1}, {"scalar_round", {VK_FLT}, {SK_SMALL}, 1},
-    {"scalar_nearbyint", {VK_FLT}, {SK_SMALL}, 1}, {"scalar_rint", {VK_FLT}, {SK_SMALL}, 1},
+    {"ceil", {VK_FLT}, {SK_SMALL, SK_SMALL}, 2}, {"floor", {VK_FLT}, {SK_SMALL, SK_SMALL}, 2}, {"trunc", {VK_FLT}, {SK_SMALL, SK_SMALL}, 2}, {"round", {VK_FLT}, {SK_SMALL, SK_SMALL}, 2}, {"nearbyint", {VK_FLT}, {SK_SMALL, SK_SMALL}, 3}, {"rint", {VK_FLT}, {SK_SMALL, SK_SMALL}, 3},
+    {"scalar_ceil", {VK_FLT}, {SK_SMALL, SK_SMALL}, 1}, {"scalar_floor", {VK_FLT}, {SK_SMALL, SK_SMALL}, 1}, {"scalar_trunc", {VK_FLT}, {SK_SMALL, SK_SMALL}, 1}, {"scalar_round", {VK_FLT}, {SK_SMALL, SK_SMALL}, 1},
+    {"scalar_nearbyint", {VK_FLT}, {SK_SMALL, SK_SMALL}, 1}, {"scalar_rint", {VK_FLT}, {SK_SMALL, SK_SMALL}, 1},
     {"fp_environment", {VK_FLT, VK_FLT_REL}, {SK_SMALL, SK_SMALL, SK_OFF}, 3},
 };
 enum { CL_NEAR_2P, CL_LT_ONE, CL_TIE, CL_NEAR_TIE, CL_NEG_TO_ZERO, CL_NAN_INF, CL_INTEGRAL, CL_DIRECTED_MODE, CL_FTZ_DAZ, CL_ZERO_SIGN_DIFFERS, CL_ORDINARY };
@@ -23,11 +23,68 @@ extern "C" const VpOp* vp_ops(uint32_t* n) { *n = OP_COUNT; return OPS; }
 extern "C" const char* const* vp_class_names(uint32_t* n) { *n = 11; return CLASSES; }
 extern "C" const char* vp_rule(void) {
     return "a case is a vector of float/double bit patterns, a rounding function (vector form or scalar overload) and a rounding mode, or an arbitrary AVEL operation whose effect on "
-           "MXCSR/x87 control state is observed; non-trivial = |x| in [2^(p-2), 2^(p+1)), |x| < 1, a tie or a neighbour of a tie, a negative value rounding to zero, NaN/inf, a directed "
+           "MXCSR/x87 control state is observed (for the integer vector types: a sample of forty integer operations); non-trivial = |x| in [2^(p-2), 2^(p+1)), |x| < 1, a tie or a neighbour of a tie, a negative value rounding to zero, NaN/inf, a directed "
            "rounding mode or FTZ/DAZ enabled; distinct = distinct hash of the Case";
 }
-#define FLTCLS(c) ((c) == 2)
-VP_DEFINE_VECTOR_TARGETS(FLTCLS)
+#define ALLCLS(c) true
+VP_DEFINE_VECTOR_TARGETS(ALLCLS)      // the integer vector types take part in the environment invariant only ("no AVEL operation ...")
+
+// integer vector operations sampled for the environment invariant
+enum { ENV_INT_OPS = 40 };
+template<class V> struct CtOps { V x, r; template<unsigned I> void at() { r = avel::rotl<I>(avel::bit_shift_right<I>(avel::bit_shift_left<I>(x))); } };
+template<class V> __attribute__((noinline)) static uint64_t env_sample_int(unsigned k, const V* a, const V* b) {
+    typedef typename V::scalar T; typedef typename V::mask M;
+    uint64_t sink[VP_MAXL], bl[VP_MAXL], nz[VP_MAXL], am[VP_MAXL]; uint64_t acc = 0;
+    rd<V>(*b, bl);
+    for (unsigned i = 0; i < V::width; ++i) { nz[i] = bl[i] ? bl[i] : 3; if (std::is_signed<T>::value && nz[i] == elem<T>::mask()) nz[i] = 5; am[i] = bl[i] % (elem<T>::bits + 1); }
+    const V d = mk<V>(nz), sh = mk<V>(am);
+    V r = *a; M m{};
+    switch (k % ENV_INT_OPS) {
+    case 0: r = *a + *b; break; case 1: r = *a - *b; break; case 2: r = *a * *b; break; case 3: r = *a / d; break; case 4: r = *a % d; break;
+    case 5: { auto q = avel::div(*a, d); r = q.quot ^ q.rem; break; } case 6: { V t = *a; t /= d; t %= d; r = t; break; }
+    case 7: r = *a << sh; break; case 8: r = *a >> sh; break; case 9: r = *a << 3LL; break; case 10: r = *a >> 3LL; break;
+    case 11: r = avel::rotl(*a, sh); break; case 12: r = avel::rotr(*a, 5LL); break; case 13: { CtOps<V> f; f.x = *a; dispatch<8>::go(k % 8, f); r = f.r; break; }
+    case 14: r = avel::popcount(*a); break; case 15: r = avel::countl_zero(*a); break; case 16: r = avel::countr_zero(*a); break; case 17: r = avel::countl_one(*a); break; case 18: r = avel::countr_one(*a); break;
+    case 19: m = avel::has_single_bit(*a); break; case 20: r = avel::byteswap(*a); break; case 21: r = avel::average(*a, *b); break; case 22: r = avel::midpoint(*a, *b); break;
+    case 23: r = avel::min(*a, *b); break; case 24: r = avel::max(*a, *b); break; case 25: r = avel::clamp(*a, avel::min(*a, *b), avel::max(*a, *b)); break;
+    case 26: m = (*a < *b); break; case 27: m = (*a >= *b); break; case 28: m = (*a == *b); break; case 29: r = avel::blend(*a < *b, *a, *b); break;
+    case 30: r = ~*a & *b | (*a ^ *b); break; case 31: { V t = *a; ++t; t--; t += *b; t *= *a; r = t; break; }
+    case 32: { T buf[VP_MAXL + 1]; avel::store(buf, *a, V::width / 2 + 1); r = avel::load<V>(buf, V::width / 2 + 1); break; } case 33: { auto arr = avel::to_array(*a); r = V{arr}; break; }
+    case 34: r = avel::insert<0>(*a, avel::extract<0>(*b)); break; case 35: { M q(*a); r = V(q); m = q; break; }
+    case 36: { avel::Denominator<V> den(d); r = *a / den; break; } case 37: { avel::Denominator<V> den(d); r = *a % den; break; }
+    case 38: { avel::Denominator<T> sd(avel::extract<0>(d)); r = V(T(avel::extract<0>(*a) / sd)); break; }
+    default: r = avel::keep(*a != *b, *a); break;
+    }
+    rd<V>(r, sink); acc ^= sink[0]; acc ^= avel::count(m);
+    return acc;
+}
+template<class V> struct IntEnv {
+    static void run(const VpCase* c, VpOutcome* o) {
+        if (c->op != OP_ENV) { o->status = 2; return; }
+        typedef typename V::scalar T;
+        const unsigned W = V::width;
+        uint64_t al[VP_MAXL], bl[VP_MAXL];
+        for (unsigned i = 0; i < W; ++i) { al[i] = c->v[0][i] & elem<T>::mask(); bl[i] = c->v[1][i] & elem<T>::mask(); }
+        const int mode = (int)((c->s[0] < 0 ? -c->s[0] : c->s[0]) % 4);
+        const unsigned ftzdaz = (unsigned)(c->s[1] < 0 ? -c->s[1] : c->s[1]) % 4, k = (unsigned)(c->s[2] < 0 ? -c->s[2] : c->s[2]);
+        V a = mk<V>(al), b = mk<V>(bl);
+        ref_setround(mode);
+        const uint32_t saved = ref_get_mxcsr();
+        ref_set_mxcsr((saved & ~0x8040u) | ((ftzdaz & 1) ? 0x8000u : 0) | ((ftzdaz & 2) ? 0x0040u : 0));
+        FpEnv before = FpEnv::take();
+        volatile uint64_t sink = env_sample_int<V>(k, &a, &b); (void)sink;
+        FpEnv after = FpEnv::take();
+        ref_set_mxcsr(0x1F80); ref_setround(0);
+        if (mode) o->classes |= 1u << CL_DIRECTED_MODE;
+        if (ftzdaz) o->classes |= 1u << CL_FTZ_DAZ;
+        o->nontrivial = (mode || ftzdaz); if (!o->nontrivial) o->classes |= 1u << CL_ORDINARY;
+        ++o->lanes_compared;
+        if (!before.same(after)) {
+            char tag[96]; std::snprintf(tag, sizeof tag, "fp_environment_changed:integer_op%u", k % ENV_INT_OPS);
+            fail(o, -1, tag, "integer operation #%u changed the FP environment: MXCSR control %04x -> %04x, x87 cw %04x -> %04x (mode %d, ftz/daz %u)", k % ENV_INT_OPS, before.mxcsr_ctl, after.mxcsr_ctl, before.x87, after.x87, mode, ftzdaz);
+        }
+    }
+};
 
 template<class V> __attribute__((noinline)) static void do_vec(unsigned f, const V* a, V* r) {
     switch (f) {
@@ -138,9 +195,16 @@ template<class V> static void run(const VpCase* c, VpOutcome* o) {
     // the rounding functions are also run with FTZ and/or DAZ enabled (s0 / 4): the environment must come back unchanged, and every lane
     // whose input is not subnormal must still give the <cmath> value (no subnormal is involved, so FTZ/DAZ cannot legitimately matter)
     const unsigned ftzdaz = (unsigned)(((c->s[0] < 0 ? -c->s[0] : c->s[0]) / 4) % 4);
+    // how the rounding mode is set (s1): 0 = fesetround (SSE and x87 together, as before); 1 = MXCSR only (_MM_SET_ROUNDING_MODE: what SIMD code
+    // does), the x87 control word stays at nearest; 2 = x87 control word only: SSE arithmetic and <cmath> stay in round-to-nearest, so must AVEL
+    const unsigned src = (unsigned)((c->s[1] < 0 ? -c->s[1] : c->s[1]) % 3);
     FpEnv before, after;
     {
-        RoundGuard g(mode);
+        RoundGuard g(src == 0 ? mode : 0);
+        struct X87Restore { uint32_t cw; ~X87Restore() { ref_set_x87cw(cw); } } xr = {ref_get_x87cw()};
+        if (src == 1) ref_set_mxcsr((ref_get_mxcsr() & ~0x6000u) | ((uint32_t)mode << 13));
+        if (src == 2) ref_set_x87cw((ref_get_x87cw() & ~0x0C00u) | ((uint32_t)mode << 10));
+        struct CsrRestore { bool on; ~CsrRestore() { if (on) ref_set_mxcsr(ref_get_mxcsr() & ~0x6000u); } } cr = {src == 1};
         for (unsigned i = 0; i < W; ++i) exp[i] = Ref<T>::un(RF[f], al[i]);
         const uint32_t saved = ref_get_mxcsr();
         if (ftzdaz) ref_set_mxcsr((saved & ~0x8040u) | ((ftzdaz & 1) ? 0x8000u : 0) | ((ftzdaz & 2) ? 0x0040u : 0));
@@ -175,7 +239,7 @@ template<class V> static void run(const VpCase* c, VpOutcome* o) {
     }
     if (nt) o->nontrivial = 1; else o->classes |= 1u << CL_ORDINARY;
     if (failtag) {
-        char tag[96]; std::snprintf(tag, sizeof tag, "%s:mode%d%s", failtag, mode, ftzdaz ? ":ftz_daz" : "");
+        char tag[96]; std::snprintf(tag, sizeof tag, "%s:mode%d%s%s", failtag, mode, ftzdaz ? ":ftz_daz" : "", src == 1 ? ":mxcsr_only" : src == 2 ? ":x87_only" : "");
         fail(o, bad, tag, "%s(0x%llx) under rounding mode %d: expected 0x%llx got 0x%llx (lane %d)", OPS[op].name, (unsigned long long)al[bad], mode, (unsigned long long)o->expect[bad], (unsigned long long)got[bad], bad);
     }
 }
@@ -185,6 +249,9 @@ extern "C" void vp_run(const VpCase* c, VpOutcome* o) {
     switch (c->target) {
 #define X(n) case T_##n: run<avel::n>(c, o); return;
         VP_FLT_VECS(X)
+#undef X
+#define X(n) case T_##n: IntEnv<avel::n>::run(c, o); return;
+        VP_INT_VECS(X)
 #undef X
     default: o->status = 2; return;
     }
@@ -205,16 +272,29 @@ extern "C" void vp_enum(int tier, uint64_t seed, uint32_t shard, uint32_t nshard
     for (uint32_t t = 0; t < nt; ++t) {
         if (!T[t].present) continue;
         const unsigned W = T[t].width, B = T[t].bits;
+        if (T[t].cls != 2) {
+            // integer vector types: the environment invariant over the integer operation sample x rounding mode x FTZ/DAZ setting
+            if ((job++ % nshards) != shard) continue;
+            const std::vector<uint64_t> I = vpl::int_lattice_small(B);
+            for (unsigned k = 0; k < ENV_INT_OPS; ++k) for (int mode = 0; mode < 4; ++mode) for (unsigned fd = 0; fd < 4; ++fd) for (unsigned rep = 0; rep < 2; ++rep) {
+                VpCase c; std::memset(&c, 0, sizeof c); c.target = t; c.op = OP_ENV; c.s[0] = mode; c.s[1] = fd; c.s[2] = k + ENV_INT_OPS * (k % 8);
+                for (unsigned i = 0; i < W; ++i) { c.v[0][i] = I[(k * 31 + i * 7 + mode + rep * 13) % I.size()]; c.v[1][i] = I[(k * 17 + i * 3 + fd + 5 + rep * 29) % I.size()]; }
+                emit(&c, ctx);
+            }
+            continue;
+        }
         std::vector<uint64_t> L = B == 32 ? vpl::flt_lattice(32) : dbl_values();
         const size_t n = L.size();
         for (unsigned op = 0; op < OP_ENV; ++op) {
             if ((job++ % nshards) != shard) continue;
             if (op >= OP_SC0 && W != 1) continue;
             const unsigned f = op % F_COUNT;
-            for (int mf = 0; mf < 7; ++mf) {
-                // all four rounding modes with FTZ/DAZ off, then each FTZ/DAZ combination under one rounding mode
-                const int mode = mf < 4 ? mf : (int)((mf + f) % 4), fd = mf < 4 ? 0 : mf - 3;
-                VpCase c; std::memset(&c, 0, sizeof c); c.target = t; c.op = op; c.s[0] = mode + 4 * fd;
+            for (int mf = 0; mf < 13; ++mf) {
+                // all four rounding modes with FTZ/DAZ off, then each FTZ/DAZ combination under one rounding mode, then the three directed modes set
+                // through MXCSR only and through the x87 control word only
+                const int mode = mf < 4 ? mf : mf < 7 ? (int)((mf + f) % 4) : 1 + (mf - 7) % 3, fd = (mf >= 4 && mf < 7) ? mf - 3 : 0, src = mf < 7 ? 0 : 1 + (mf - 7) / 3;
+                if (!tier && mf >= 7 && f < F_NEARBYINT && ((mf + f + seed) % 3) != 0) continue;      // quick: ceil/floor/trunc/round see a third of the mode-source combinations
+                VpCase c; std::memset(&c, 0, sizeof c); c.target = t; c.op = op; c.s[0] = mode + 4 * fd; c.s[1] = src;
                 size_t fill = 0; uint64_t rot = seed + op + mode;
                 for (size_t i = 0; i < n; ++i) { c.v[0][(fill + rot) % W] = L[i]; if (++fill == W) { emit(&c, ctx); fill = 0; ++rot; } }
                 if (fill) emit(&c, ctx);
